@@ -54,8 +54,16 @@ def m_of(v):
     return tuple((int(a), int(b)) for a, b in v)
 
 
-def m_to_np(m):
-    return np.array([[complex(*m[0]), complex(*m[1])], [complex(*m[2]), complex(*m[3])]])
+SPARSE_FORMATS = ["csr_array", "csc_array", "coo_array", "csr_matrix"]
+
+
+def m_to_np(m, fmt="numpy"):
+    a = np.array([[complex(*m[0]), complex(*m[1])], [complex(*m[2]), complex(*m[3])]])
+    if fmt and fmt != "numpy":
+        import scipy.sparse as sp
+
+        return getattr(sp, fmt)(a)
+    return a
 
 
 def m_from_impl(x):
@@ -65,6 +73,8 @@ def m_from_impl(x):
         return ZERO
     if x is one:
         return EYE
+    if hasattr(x, "toarray") and hasattr(x, "format"):  # scipy sparse array / matrix
+        x = x.toarray()
     a = np.asarray(x)
     if a.shape != (2, 2):
         raise TypeError("unexpected value %r" % (x,))
@@ -147,8 +157,10 @@ def reference(case):
 def build_impl(case, touched=None):
     from pymablock.series import BlockSeries, zero, one
 
+    fmt = case.get("fmt", "numpy")
+
     def val(v):
-        return zero if v == "zero" else one if v == "one" else m_to_np(m_of(v))
+        return zero if v == "zero" else one if v == "one" else m_to_np(m_of(v), fmt)
 
     factors = []
     for f, tab in enumerate(case["tables"]):
@@ -334,6 +346,8 @@ def gen_cauchy_case(rng, kind):
         known.append([list(k) for k in t if rng.random() < 0.3])
     req = [(i, j) + o for i in range(dims[0]) for j in range(dims[-1]) for o in orders]
     rng.shuffle(req)
+    # value type: numpy arrays, or scipy sparse arrays / matrices with genuinely complex entries
+    fmt = "numpy" if (operator or rng.random() < 0.55) else rng.choice(SPARSE_FORMATS)
     if kind == "unitary":
         req.sort(key=lambda r: sum(r[2:]))
         nreq = len(req)
@@ -341,6 +355,7 @@ def gen_cauchy_case(rng, kind):
         nreq = rng.randint(3, 12)
     return dict(
         kind=kind,
+        fmt=fmt,
         nparam=nparam,
         dims=dims,
         N=N,
@@ -696,6 +711,8 @@ def oracle_cauchy(ctx, ncases=None):
         failures += f
         kind = case["kind"].split(":")[0]
         dist[kind] = dist.get(kind, 0) + 1
+        if case.get("fmt", "numpy") != "numpy":
+            dist["sparse:" + case["fmt"]] = dist.get("sparse:" + case["fmt"], 0) + 1
         if len(case["tables"]) >= 2 and sum(case["N"]) >= 1 and len(case["requests"]) >= 2:
             nontrivial.add(core.sha(core.canon(case))[:16])
         if len(samples) < 3:
